@@ -140,8 +140,10 @@ def main(argv=None):
     errors = []
     branch_counter = Counter()
     kind_counter = Counter()
+    kind_seconds = Counter()
     if drv is not None:
         for case in cases:
+            tc = time.time()
             try:
                 o = mod.run(case, drv)
             except Exception as e:  # noqa: BLE001
@@ -149,6 +151,7 @@ def main(argv=None):
                 continue
             outcomes.append(o)
             kind_counter[case.get('kind', '?')] += 1
+            kind_seconds[case.get('kind', '?')] += time.time() - tc
             branch_counter.update(o.branches)
             if o.corr:
                 disagreements.append((case, o))
@@ -268,6 +271,7 @@ def main(argv=None):
             'disagreements_checked': len(disagreements),
             'neighbour_cases_searched': searched,
             'case_kinds': dict(kind_counter),
+            'seconds_per_kind': {k: round(v, 1) for k, v in kind_seconds.items()},
             'branches_hit': dict(branch_counter),
             'corpus_cases': 0 if args.replay else n_corpus,
             'harness_errors': len(errors),
